@@ -124,6 +124,8 @@ theorem addLine_mkLine (neg abs dir : Bool) (comps : List (List Nat)) (h : okCom
   simp only [hne2, Bool.false_eq_true, ↓reduceIte]
   rw [splitDirSlash_core dir hlast ⟨hnl.2.2.2.2.2.2.2.1, hnl.1⟩]
   simp only
+  have hne3 : (joinPath comps).isEmpty = false := by rw [hcore]; simp
+  simp only [hne3, Bool.and_false, Bool.false_eq_true, ↓reduceIte]
   rw [actualOf_core abs _ hcore hn0.2.1 hlast hnl.2.1 hf.slash]
   unfold rgGlobOf
   cases hs : (!abs && !(decide (2 ≤ comps.length)))
